@@ -15,7 +15,7 @@ THEOREMS = [P + t for t in (
     "removeNodeG_exact", "removeLinkG_exact", "removeLink_exact", "removeNsApi_exact", "removeNodeApi_exact", "removeFacilityApi_exact", "removeSwitchApi_exact",
     "removeComponentApi_exact", "remove_exact_ns", "remove_exact_comp", "remove_exact_nodeG", "remove_exact_node",
     "remove_exact_facility", "remove_exact_switch", "remove_exact_component", "remove_exact_service", "remove_exact_link",
-    "remove_exact_child", "removeCp_after_general", "removeNs_exact_general_partial", "handle_fresh_disconnect", "handle_fresh_removeChild", "handle_fresh_unpeer",
+    "remove_exact_child", "prune_exact", "prune_sound", "prune_covers_partial", "removeCp_after_general", "removeNs_exact_general_partial", "handle_fresh_disconnect", "handle_disconnect_entries", "handle_fresh_removeChild", "handle_fresh_unpeer",
 )]
 TRUSTED_BASE = [
     "Model/Remove.lean mirrors by hand remove_cp_and_links / remove_ns_with_cps_and_links / remove_component_with_nss_cps_and_links / "
@@ -132,13 +132,14 @@ def run_recipe(recipe, only_ops=None, graph_level=True):
             for lab, h, fresh in hs.items:
                 try:
                     used = sorted(s0.ranks[i.node_id] for i in h.interface_list)
+                    used_pairs = hpairs(s0, h.interface_list)
                 except Exception as e:
-                    used = "error:" + type(e).__name__
+                    used = used_pairs = "error:" + type(e).__name__
                 try:
                     fr = sorted(s0.ranks[i.node_id] for i in fresh().interface_list) if st == "ok" else None
                 except Exception as e:
                     fr = "error:" + type(e).__name__
-                hl.append((lab, used, fr))
+                hl.append((lab, used, fr, used_pairs))
             rec["handles"] = hl
             out.append(rec)
     finally:
@@ -168,16 +169,16 @@ def lean_request(L, b, s0, op, recipe, wn, we):
     elif k == "disconnect":
         s = b.svc[op[1]]
         args = [R[s.node_id], R[L.resolve_if(b, op[2]).node_id]]
-        h1 = [R[i.node_id] for i in s._interfaces]
+        h1 = hpairs(s0, s._interfaces)
     elif k == "unpeer":
         s, s2 = b.svc[op[1]], b.svc[op[2]]
         args = [R[s.node_id], R[s2.node_id]]
-        h1 = [R[i.node_id] for i in s._interfaces]
-        h2 = [R[i.node_id] for i in s2._interfaces]
+        h1 = hpairs(s0, s._interfaces)
+        h2 = hpairs(s0, s2._interfaces)
     elif k == "remove_child":
         p = L.resolve_if(b, op[1])
         args = [R[p.node_id], R[p.interfaces[op[2]].node_id]]
-        h1 = [R[i.node_id] for i in p._interfaces]
+        h1 = hpairs(s0, p._interfaces)
     elif k == "prune":
         roots = {"node": [], "comp": [], "service": [], "iface": []}
         for st in recipe:
@@ -192,13 +193,24 @@ def lean_request(L, b, s0, op, recipe, wn, we):
     return [LEAN_OP[k], wn, we, args, h1, h2, lists]
 
 
+def name_code(s0, name):
+    """Stable small integer for an interface name (names may coincide: that is the point)."""
+    names = sorted({v[2] for v in s0.nodes.values() if v[2] is not None})
+    return names.index(name) if name in names else len(names)
+
+
+def hpairs(s0, interfaces):
+    """A handle's cached list as sorted [canonical id, name code] pairs."""
+    return sorted([s0.ranks[i.node_id], name_code(s0, i.name)] for i in interfaces)
+
+
 def impl_reply(rec):
     if rec["status"] != "ok":
         return ["err", rec["status"]]
     d = {"deleted": rec["deleted"], "frame": rec["frame"], "h1": [], "h2": [], "f1": [], "f2": []}
-    for (lab, used, fr), (hk, fk) in zip(rec["handles"], (("h1", "f1"), ("h2", "f2"))):
+    for (lab, used, fr, pairs), (hk, fk) in zip(rec["handles"], (("h1", "f1"), ("h2", "f2"))):
         if lab in ("service", "other", "interface"):
-            d[hk], d[fk] = used, fr
+            d[hk], d[fk] = pairs, fr
     return ["ok", d]
 
 
@@ -274,7 +286,7 @@ def judge(rec, res):
         mk = sorted({kinds[c] for c in miss})
         what = "orphan-service-port" if mk == ["ServicePort"] else "missing:" + ",".join(mk)
         bad(what, "part of the owned structure / peering artefacts survives", expected=sorted(exp), observed=sorted(deleted))
-    for lab, used, fr in rec["handles"]:
+    for lab, used, fr, _pairs in rec["handles"]:
         if lab == "node":
             continue
         if used != fr:
